@@ -253,6 +253,10 @@ def run(chk, prog):
                    'time-limited continue merely pauses' % what, ci.loc(bb))
     check_count_pairing(chk, prog, tr, RC)
 
+    # ---- the work done when a line completes does not depend on which call started the line (shared with C11)
+    from rules.c11 import closing_action_controllers
+    closing_action_controllers(chk, prog, tr, 'C08.end-of-line-work-whenever-the-line-completes')
+
 
 def entry_async_flow(prog, tr, ci):
     """GuardFlow over continue_internal tracking Story::async_continue_active (atom 'async', entry value 'entry:async')."""
